@@ -57,8 +57,8 @@ struct ContBase {
     // grow-and-retry formatting buffer (total formatted length = returned length + extra)
     std::string gen_fmt_text(size_t small_max, size_t extra) {
         if (!s.chance(1, 8)) return gen_val(true, small_max);
-        static const size_t edge[] = {1024, 2048, 4096};
-        size_t target = edge[s.range(0, 2)] + (size_t)s.range(0, 3) - 2;      // edge-2 .. edge+1
+        static const size_t edge[] = {16, 32, 64, 128, 256, 512, 1024, 1024, 2048, 4096, 8192};      // plausible internal buffer sizes
+        size_t target = edge[s.range(0, 10)] + (size_t)s.range(0, 3) - 2;      // edge-2 .. edge+1
         size_t len = target > extra ? target - extra : 1;
         std::string v; uint32_t x = (uint32_t)s.u8() + 3;
         for (size_t i = 0; i < len; i++) { x = x * 1103515245u + 12345u; v.push_back((char)('a' + (x >> 16) % 26)); }
